@@ -352,14 +352,20 @@ func fill(v reflect.Value, n int64, depth int) bool {
 		v.Set(s)
 		return true
 	case reflect.Struct:
-		for i := 0; i < v.NumField(); i++ {
+		// the first two fields that can carry a value get one (ScaledNumberType: number AND scale,
+		// TimePeriodType: startTime AND endTime), so that a change to a SUB element of a
+		// struct-valued field — made through a pointer several items or copies share — shows up
+		// in the JSON text and hence as a value outside the field's table
+		filled := 0
+		for i := 0; i < v.NumField() && filled < 2; i++ {
 			if !v.Field(i).CanSet() {
 				continue
 			}
 			if fill(v.Field(i), n, depth+1) {
-				return true
+				filled++
 			}
 		}
+		return filled > 0
 	}
 	return false
 }
@@ -397,7 +403,12 @@ func (ti *TypeInfo) BuildData(items [][]int64) reflect.Value {
 	return d
 }
 
-// ReadItem abstracts an element struct value; -1 marks a value outside the table.
+// OutOfTable is the abstract value (encoded, i.e. value number OutOfTable-1) ReadItem reports for a
+// field whose Go value is none of the values Fill produces, e.g. a ScaledNumberType that lost its
+// scale: distinct from every generated value, so the monitors see "this field changed".
+const OutOfTable = 9999
+
+// ReadItem abstracts an element struct value; OutOfTable marks a value outside the table.
 func (ti *TypeInfo) ReadItem(it reflect.Value) []int64 {
 	out := make([]int64, len(ti.Fields))
 	for i := range ti.Fields {
@@ -407,13 +418,13 @@ func (ti *TypeInfo) ReadItem(it reflect.Value) []int64 {
 		}
 		b, err := json.Marshal(f.Interface())
 		if err != nil {
-			out[i] = -1
+			out[i] = OutOfTable
 			continue
 		}
 		if n, ok := ti.Fields[i].decode[string(b)]; ok {
 			out[i] = n + 1
 		} else {
-			out[i] = -1
+			out[i] = OutOfTable
 		}
 	}
 	return out
@@ -476,6 +487,23 @@ func (ti *TypeInfo) BuildFilter(partial bool, f Filter) *model.FilterType {
 			fv := e.Elem().Field(j)
 			if fv.Kind() == reflect.Ptr {
 				fv.Set(reflect.New(fv.Type().Elem()))
+				// 2 / 3: the element names a SUB element (the last / the first pointer field of its
+				// elements struct, e.g. value.scale / value.number) instead of the field as a whole
+				if sub := fv.Elem(); a >= 2 && sub.Kind() == reflect.Struct {
+					var ptrs []int
+					for k := 0; k < sub.NumField(); k++ {
+						if sub.Field(k).Kind() == reflect.Ptr && sub.Field(k).CanSet() {
+							ptrs = append(ptrs, k)
+						}
+					}
+					if len(ptrs) > 0 {
+						k := ptrs[len(ptrs)-1]
+						if a == 3 {
+							k = ptrs[0]
+						}
+						sub.Field(k).Set(reflect.New(sub.Field(k).Type().Elem()))
+					}
+				}
 			}
 		}
 		v.Field(ti.ElemFilterField).Set(e)
@@ -496,4 +524,22 @@ func (ti *TypeInfo) Cmd(data reflect.Value, filters ...*model.FilterType) model.
 		c.Function = &ti.Function
 	}
 	return c
+}
+
+// HasSubElements tells whether field j of the elements struct is a pointer to a struct with
+// pointer fields of its own, i.e. whether a delete filter can name a sub element of it.
+func (ti *TypeInfo) HasSubElements(j int) bool {
+	if ti.ElemType == nil || j < 0 || j >= ti.ElemType.NumField() {
+		return false
+	}
+	t := ti.ElemType.Field(j).Type
+	if t.Kind() != reflect.Ptr || t.Elem().Kind() != reflect.Struct {
+		return false
+	}
+	for k := 0; k < t.Elem().NumField(); k++ {
+		if t.Elem().Field(k).Type.Kind() == reflect.Ptr && t.Elem().Field(k).IsExported() {
+			return true
+		}
+	}
+	return false
 }
